@@ -289,6 +289,7 @@ struct Campaign {
 		CaseResult r = run_case(sc, opt, setup);
 		std::vector<Failure> out;
 		if (record) evaluations++;
+		if (getenv("VERIF_TRACE")) fputs(r.stderr_text.c_str(), stderr);
 		if (r.timed_out) { if (record) timeouts++; return out; }
 		std::string which;
 		// an injected allocation failure is identified by its call site, so that distinct root causes stay distinct
